@@ -107,6 +107,14 @@ struct SZipHi
 {
     static constexpr size_t get(size_t i, size_t n) { return n / 2 + (i / 2) + (i & 1) * n; }
 };
+struct SEvenPairs // (x[0], y[0], x[2], y[2], ...): NOT a zip; the generic kernel once mistook it for zip_lo
+{
+    static constexpr size_t get(size_t i, size_t n) { return (i & 1) ? n + (i - 1) : i; }
+};
+struct SOddPairs // (x[1], y[1], x[3], y[3], ...)
+{
+    static constexpr size_t get(size_t i, size_t n) { return (i & 1) ? n + i : i + 1; }
+};
 struct SSel
 {
     static constexpr size_t get(size_t i, size_t n) { return i + ((i & 1) ? n : 0); }
@@ -740,6 +748,8 @@ static void all_ops(uint64_t seed)
     SH(SAllX)
     SH(SZipLo)
     SH(SZipHi)
+    SH(SEvenPairs)
+    SH(SOddPairs)
     SH(SSel)
     SH(SSel2)
     SH(SHalfHalf)
